@@ -91,6 +91,7 @@ func runC11(p *Program, r *Report) {
 	c11gate(p, r, "C11.gate")
 	c11key(p, r, "C11.key")
 	c11sub(p, r, "C11.sub")
+	cTokens(p, r, "C11.tokens")
 }
 
 func c11verify(p *Program, r *Report, rule string) {
@@ -674,6 +675,7 @@ func runC13(p *Program, r *Report) {
 	}
 	c13verify(p, r, "C13.verify")
 	c14client(p, r, "C13.ext")
+	cTokens(p, r, "C13.tokens")
 }
 
 func randReaderPkg(p *Program, fn *ssa.Function) (string, bool) {
@@ -751,6 +753,8 @@ func runC14(p *Program, r *Report) {
 	c14client(p, r, "C14.client")
 	c14side(p, r, "C14.side")
 	c14use(p, r, "C14.use")
+	c14parse(p, r, "C14.parse")
+	cTokens(p, r, "C14.tokens")
 	// C14.same: server side in accept (C11.buf/C11.resp), client side in dial (C13.gate)
 	c11gate(p, r, "C14.same.server")
 	if fn := p.Func("dial"); fn != nil {
@@ -1155,4 +1159,116 @@ func c14use(p *Program, r *Report, rule string) {
 			}
 		}
 	}
+}
+
+// ---- header token parsing (shared by C11, C13, C14) -------------------------------------------------------------
+
+func cTokens(p *Program, r *Report, rule string) {
+	if fn := p.Func("headerTokens"); fn != nil {
+		p.forAllPaths(r, rule, fn, "comma-separated, trimmed tokens of all header lines", Opts{Unroll: 2},
+			"headerTokens canonicalises the key, ranges over every value of h[key], splits each on \",\" and appends every TrimSpace'd piece",
+			func(pa *Path) (bool, string) {
+				ck := pa.Calls("textproto.CanonicalMIMEHeaderKey")
+				if len(ck) != 1 || argKey(ck[0], 0) != "param:key" {
+					return false, "key not canonicalised"
+				}
+				for _, sp := range pa.Calls("strings.Split") {
+					if argKey(sp, 1) != `","` {
+						return false, "split on " + argKey(sp, 1)
+					}
+					src := expandCalls(pa, argKey(sp, 0))
+					if !strings.Contains(src, "lookup:") || !strings.Contains(src, "param:h,textproto.CanonicalMIMEHeaderKey(param:key)") {
+						return false, "splits " + src
+					}
+				}
+				for _, ap := range pa.Calls("builtin append") {
+					va := varargsOf(pa, ap)
+					if len(va) != 1 || !strings.HasPrefix(expandCalls(pa, va[0].Key()), "strings.TrimSpace(elem(strings.Split(") {
+						return false, "appends " + func() string {
+							if len(va) > 0 {
+								return expandCalls(pa, va[0].Key())
+							}
+							return "?"
+						}()
+					}
+				}
+				return true, ""
+			})
+	}
+	if fn := p.Func("headerContainsTokenIgnoreCase"); fn != nil {
+		p.forAllPaths(r, rule, fn, "case-insensitive token membership", Opts{Unroll: 2},
+			"headerContainsTokenIgnoreCase returns true exactly when some token of headerTokens(h, key) is EqualFold to the wanted token, false after exhausting them",
+			func(pa *Path) (bool, string) {
+				ht := pa.Calls("headerTokens")
+				if len(ht) != 1 || argKey(ht[0], 0) != "param:h" || argKey(ht[0], 1) != "param:key" {
+					return false, "tokens not taken from headerTokens(h, key)"
+				}
+				eqs := pa.Calls("strings.EqualFold")
+				for _, e := range eqs {
+					if !strings.HasPrefix(argKey(e, 0), "elem("+ht[0].Res.Key()+")[") || argKey(e, 1) != "param:token" {
+						return false, "compares " + argKey(e, 0) + " with " + argKey(e, 1)
+					}
+				}
+				if pa.End != "return" {
+					return true, ""
+				}
+				b, ok := avBool(pa.Ret[0])
+				if !ok {
+					return false, "returns " + pa.Ret[0].Key()
+				}
+				if b {
+					if len(eqs) == 0 {
+						return false, "true without a match"
+					}
+					if v, k := pa.Decided(eqs[len(eqs)-1].Res.Key()); !k || !v {
+						return false, "true without a match"
+					}
+				} else {
+					for _, e := range eqs {
+						if v, k := pa.Decided(e.Res.Key()); k && v {
+							return false, "false although a token matched"
+						}
+					}
+				}
+				return true, ""
+			})
+	}
+}
+
+func c14parse(p *Program, r *Report, rule string) {
+	fn := p.Func("websocketExtensions")
+	if fn == nil {
+		return
+	}
+	p.forAllPaths(r, rule, fn, "extension list parsing", Opts{Unroll: 2},
+		"websocketExtensions takes the tokens of Sec-WebSocket-Extensions, skips empty ones, splits each on \";\", trims every piece, and records name = first piece, params = the rest",
+		func(pa *Path) (bool, string) {
+			ht := pa.Calls("headerTokens")
+			if len(ht) != 1 || argKey(ht[0], 0) != "param:h" || argKey(ht[0], 1) != `"Sec-WebSocket-Extensions"` {
+				return false, "not the tokens of Sec-WebSocket-Extensions"
+			}
+			for _, sp := range pa.Calls("strings.Split") {
+				if argKey(sp, 1) != `";"` || !strings.HasPrefix(argKey(sp, 0), "elem("+ht[0].Res.Key()+")[") {
+					return false, "splits " + argKey(sp, 0) + " on " + argKey(sp, 1)
+				}
+			}
+			for _, e := range pa.Events {
+				if e.Kind == "store" && strings.HasSuffix(e.AddrK, ".name") {
+					n := expandCalls(pa, e.Val.Key())
+					if !(strings.HasPrefix(n, "elem(strings.Split(") || strings.HasPrefix(n, "strings.TrimSpace(elem(strings.Split(")) || !strings.Contains(n, ")[0]") {
+						return false, "name = " + n
+					}
+				}
+				if e.Kind == "store" && strings.HasSuffix(e.AddrK, ".params") {
+					sl, ok := e.Val.(*Expr)
+					if !ok || sl.Op != "slice" || keyOf(sl.Args[1]) != "1" || sl.Args[2] != nil {
+						return false, "params = " + e.Val.Key()
+					}
+				}
+				if e.Kind == "store" && strings.HasPrefix(e.AddrK, "elem(call:strings.Split") && !keyIs(e.Val, "call:strings.TrimSpace@@") {
+					return false, "piece not trimmed: " + e.Val.Key()
+				}
+			}
+			return true, ""
+		})
 }
